@@ -14,7 +14,8 @@ RULE = ("Engine S histories on FleetStore and the Fleet edge: capacity 1-5, wait
         "available exactly at w + 2*transit where w is the first departure instant >= p (either of the two candidates "
         "when p == w), never earlier (premature / rides an earlier trip), never later (left behind / waits too long); "
         "items of one batch appear in loading order and are handed to successive retrievals in that order (binding model of C06 with "
-        "batch members ranked by loading order; a cancelled granted retrieval releases its item ahead of the never-reserved ones). "
+        "batch members ranked by loading order; a cancelled granted retrieval releases its item ahead of the never-reserved ones); the fleet "
+        "never spins in zero time (the waiting delay is > 0 in every case), which would keep loaded items from ever arriving. "
         "Non-trivial: >=2 departures with items, and a load during a trip or "
         "in a departure instant.")
 ASSUMPTIONS = ["timer phase of the dispatcher (restart at every wake-up) is taken from the implementation; everything else from the statement",
@@ -179,6 +180,15 @@ class FleetOracle(Oracle):
             if self.in_trip(now) or any(close(w, now) for w in self.wakes):
                 h.flags.add("load_in_trip_or_departure")
         self.observe(h, "op")
+
+    def livelock(self, h):
+        # (delay > 0 here: the documented dispatcher always lets the clock advance)
+        if not self.dead:
+            waiting = [item.id for i, (p, item, seq) in self.load.items() if i not in self.avail]
+            self.res.violate(("too_long", "livelock"),
+                             "the fleet spins without letting the clock advance at t=%s (more than 5000 kernel events in one instant): "
+                             "loaded items %s can never be delivered (delay=%s transit=%s)" % (h.env.now, waiting, self.delay, self.tr))
+            self.dead = True
 
     def finish(self, h):
         deps = [w for w in self.departures()]
